@@ -869,18 +869,15 @@ impl DhtCoreEngine {
             "Selected storage targets"
         );
 
-        // Store locally if we're one of the selected nodes or if no nodes are available (test/single-node mode)
-        if selected_nodes.contains(&self.node_id) || selected_nodes.is_empty() {
+        // Always keep the value locally. Every caller (the local PUT path and the handlers of
+        // remote PUT / Store messages) invokes `store` to make *this* node hold the value;
+        // `selected_nodes` only reports the other peers that qualify as replication targets.
+        // The local node is never part of its own routing table, so storing only "if we are one of
+        // the selected nodes" acknowledged the write without keeping it as soon as any peer was
+        // known.
+        {
             let mut store = self.data_store.write().await;
-            // Avoid unnecessary clone of value: key is cloned for ownership, value is consumed by this branch
             store.put(key.clone(), value);
-            // Return early since we've consumed value
-            return Ok(StoreReceipt {
-                key: key.clone(),
-                stored_at: selected_nodes,
-                timestamp: SystemTime::now(),
-                success: true,
-            });
         }
 
         Ok(StoreReceipt {
